@@ -619,3 +619,123 @@ Section Families.
     - intros a Ha. destruct want6; [apply Hsnd; auto|destruct Ha].
   Qed.
 End Families.
+
+(* ------------------------------------------------------------------ *)
+(* keys as a function of (draw, weight): weight 0 and the corner draws (F18) *)
+
+Section Draws.
+  Variable K : Type.
+  Variable klt : K -> K -> bool.
+  Variable kpos : K -> bool.
+  Variable A : Type.
+  Hypothesis klt_irrefl : forall a, klt a a = false.
+  Hypothesis klt_trans : forall a b c, klt a b = true -> klt b c = true -> klt a c = true.
+  Hypothesis kzero_below : forall z a, kpos z = false -> kpos a = true -> klt z a = true.
+
+  (* keyof u w stands for math.Pow(float64(u)*float64(1.0/MaxUint32), 1.0/float64(w));
+     all that is assumed about it is when it is > 0.0 (checked on every Add of
+     the correspondence run): weight 0 gives Pow(x, +Inf) = 0 unless x = 1 (u = M);
+     a positive weight gives 0 only for u = 0 *)
+  Variable keyof : N -> N -> K.
+  Hypothesis keyof_pos : forall u w, u <= maxU32 -> kpos (keyof u w) = dk_pos (u, w).
+
+  (* a declared visible record with its draw *)
+  Record drow := mkD { dq : N; du : N; dw : N; dpay : A }.
+  Definition to_row (d : drow) : row K A := mkRow (dq d) (keyof (du d) (dw d)) (dpay d).
+
+  Lemma map_rpay_to_row : forall l, map rpay (map to_row l) = map dpay l.
+  Proof. induction l; simpl; congruence. Qed.
+
+  Theorem zero_weight_not_served_but_found : forall q max (lv : list drow) rest d,
+    q = TypeA \/ q = TypeAAAA -> NoDup (map dpay lv) ->
+    In d lv -> dq d = q -> dw d = 0 -> du d < maxU32 ->
+    let res := find_answer klt kpos q max (map to_row lv :: rest) in
+    ~ In (dpay d) (fst (fst res)) /\ snd res = true /\ nxdomain res = false.
+  Proof.
+    intros q max lv rest d Hq Hnd Hd Hdq Hw Hu.
+    apply (zero_key_not_served_but_found K klt kpos A klt_irrefl klt_trans q max (map to_row lv) rest (to_row d)); auto.
+    - rewrite map_rpay_to_row; auto.
+    - apply in_map; auto.
+    - simpl. rewrite keyof_pos by lia. rewrite Hw. simpl.
+      apply N.eqb_neq. lia.
+  Qed.
+
+  (* F18, first half: the draw 2^32-1 gives a weight-0 record the key 1 and it is served *)
+  Theorem zero_weight_served_refuted : forall a : A,
+    exists (lv : list drow) d, In d lv /\ dw d = 0 /\ dq d = TypeA /\
+      In (dpay d) (fst (fst (find_answer klt kpos TypeA 1 [map to_row lv]))).
+  Proof.
+    intros a. exists [mkD TypeA maxU32 0 a], (mkD TypeA maxU32 0 a).
+    split; [left; reflexivity|]. split; [reflexivity|]. split; [reflexivity|].
+    rewrite (find_answer_addr K klt kpos A TypeA 1 _ [] (or_introl eq_refl)) by discriminate.
+    cbn. rewrite keyof_pos by (cbn; discriminate). cbn. auto.
+  Qed.
+
+  Definition in_open_range (d : drow) : Prop := 0 < du d < maxU32.
+
+  Lemma pos_by_weight : forall d, in_open_range d -> kpos (keyof (du d) (dw d)) = (0 <? dw d).
+  Proof.
+    intros d [H0 HM]. rewrite keyof_pos by lia. unfold dk_pos.
+    destruct (dw d =? 0) eqn:E.
+    - apply N.eqb_eq in E. rewrite E. cbn. apply N.eqb_neq. lia.
+    - apply N.eqb_neq in E. transitivity true; [apply N.ltb_lt; lia|symmetry; apply N.ltb_lt; lia].
+  Qed.
+
+  (* outside F18 (no draw is 0 or 2^32-1): the number of served addresses is
+     min(max, number of positive-weight candidates) *)
+  Theorem count_by_weight_outside_F18 : forall (lv : list drow) max q,
+    (1 <= max)%Z -> q = TypeA \/ q = TypeAAAA -> NoDup (map dpay lv) ->
+    Forall in_open_range lv ->
+    exists res, records kpos (feed klt max (map to_row lv)) q = Ok res
+      /\ length res = Nat.min (Z.to_nat max)
+                        (length (filter (fun d : drow => (dq d =? q) && (0 <? dw d)) lv)).
+  Proof.
+    intros lv max q Hmax Hq Hnd Hall.
+    destruct (bounded_sound K klt kpos A klt_irrefl klt_trans kzero_below (map to_row lv) max q Hmax Hq)
+      as (res & Hrec & _ & _ & _ & Hlen).
+    { rewrite map_rpay_to_row; auto. }
+    exists res. split; auto. rewrite Hlen. f_equal.
+    clear - Hall keyof_pos. induction lv as [|d lv IH]; auto.
+    inversion Hall; subst. cbn [map filter to_row rq rkey].
+    rewrite (pos_by_weight d H1). destruct ((dq d =? q) && (0 <? dw d)); simpl; auto.
+  Qed.
+
+  (* F18, second half: the draw 0 gives a positive-weight record the key 0:
+     the only candidate is dropped, the answer is empty *)
+  Theorem positive_weight_dropped_refuted : forall a : A,
+    exists (lv : list drow) max, (1 <= max)%Z /\ NoDup (map dpay lv) /\
+      records kpos (feed klt max (map to_row lv)) TypeA = Ok []
+      /\ length (filter (fun d : drow => (dq d =? TypeA) && (0 <? dw d)) lv) = 1%nat.
+  Proof.
+    intros a. exists [mkD TypeA 0 1 a], 1%Z. repeat split; simpl; auto; try lia.
+    - constructor; auto. constructor.
+    - cbn. rewrite keyof_pos by discriminate. cbn. auto.
+  Qed.
+End Draws.
+
+(* ------------------------------------------------------------------ *)
+(* the hypotheses are satisfiable: ranks (N with <, positive = non-zero), and a
+   non-trivial evaluation *)
+
+Lemma rk_irrefl : forall a, rk_lt a a = false.
+Proof. intros. apply N.ltb_irrefl. Qed.
+Lemma rk_trans : forall a b c, rk_lt a b = true -> rk_lt b c = true -> rk_lt a c = true.
+Proof. unfold rk_lt. intros a b c H1 H2. apply N.ltb_lt in H1, H2. apply N.ltb_lt. lia. Qed.
+Lemma rk_zero_below : forall z a, rk_pos z = false -> rk_pos a = true -> rk_lt z a = true.
+Proof.
+  unfold rk_lt, rk_pos. intros z a H1 H2. apply N.ltb_ge in H1. apply N.ltb_lt in H2. apply N.ltb_lt. lia.
+Qed.
+
+(* six A candidates (keys 5 0 9 2 9 7) and one AAAA, max 3: slots end as 7 9 9 *)
+Example wrs_example :
+  records rk_pos (feed rk_lt 3 [mkRow 1 5 10; mkRow 1 0 11; mkRow 28 4 20; mkRow 1 9 12; mkRow 1 2 13; mkRow 1 9 14; mkRow 1 7 15]) 1
+  = Ok [(7, 15); (9, 14); (9, 12)].
+Proof. vm_compute. reflexivity. Qed.
+
+(* exact keys: weight 0 with draw 2^32-1 beats weight 1 with draw 2^32-2 (F18);
+   weight 0 with any other draw is never served *)
+Example F18_exact_keys :
+  find_answer dk_lt dk_pos 1 1 [[mkRow 1 (maxU32, 0) 100; mkRow 1 (4294967294, 1) 101]] = ([100], true, true)
+  /\ find_answer dk_lt dk_pos 1 1 [[mkRow 1 (4294967294, 0) 100; mkRow 1 (1, 1) 101]] = ([101], true, true)
+  /\ find_answer dk_lt dk_pos 1 3 [[mkRow 1 (0, 1) 100]] = ([], false, true).
+Proof. vm_compute. auto. Qed.
